@@ -352,7 +352,11 @@ func genSVat(r *lib.Rand, h *History, sweep int) {
 	amt := func(lo, hi int64) string { return big.NewInt(r.Range(lo, hi)).String() }
 	// a typical life: two bindings, calls, responses, blocks up to the expiry of unanswered requests
 	price := r.Range(1, 50)
-	h.Steps = append(h.Steps, Step{"bind", []string{"0", fmt.Sprint(price), fmt.Sprint(price*1000 + r.Range(0, 5000)), amt(1, 5)}})
+	qos0 := amt(1, 5)
+	if sweep >= 0 {
+		qos0 = "1" // acceptable under every positive maximum request timeout
+	}
+	h.Steps = append(h.Steps, Step{"bind", []string{"0", fmt.Sprint(price), fmt.Sprint(price*1000 + r.Range(0, 5000)), qos0}})
 	if sweep >= 0 || r.Chance(1, 5) {
 		// an extreme price (2^200 or 2^190): under the default multiple an ordinary rejection (deposit too small)
 		huge := new(big.Int).Lsh(big.NewInt(1), uint(190+10*r.Intn(2)))
@@ -394,6 +398,11 @@ func genSVat(r *lib.Rand, h *History, sweep int) {
 		case 3:
 			h.Steps = append(h.Steps, Step{"bind", []string{amt(0, 1), amt(1, 100), amt(1, 200000), amt(1, 120)}})
 		}
+	}
+	if sweep >= 0 { // one instance of every message whose parameter use is not modelled
+		h.Steps = append(h.Steps, Step{"call", []string{"1", "100", "1"}}, Step{"update_ctx", []string{"150", "1"}}, Step{"pause", nil}, Step{"start", nil},
+			Step{"update_binding", []string{"0", "1000", "1"}}, Step{"withdraw", []string{"0"}}, Step{"disable", []string{"0"}},
+			Step{"refund", []string{"0"}}, Step{"enable", []string{"0", "1000"}}, Step{"kill", nil})
 	}
 	h.Steps = append(h.Steps, Step{"block", []string{"9"}})
 }
